@@ -61,7 +61,14 @@ func oracleC07(w *world.World, s *coop.Sched, final bool) *Finding {
 	}
 	b, ok := w.OpBound[s.LastRan.Name]
 	if !ok || b < 0 {
+		// an increase by an operation that started while no Pool object existed is not subject to a size; it is remembered, because
+		// it can push a later, bounded increase over the size
+		w.OpBound["#unbounded-adds"] += cnt - w.LastPoolCount
 		return nil
+	}
+	if cnt > b && cnt-w.OpBound["#unbounded-adds"] <= b {
+		return &Finding{Clause: "pool-over-size-after-allocation-that-started-before-the-pool-object-existed", Detail: fmt.Sprintf("pool pl holds %d IPs after a step of %s (largest size in force during that operation: %d); %d of them were allocated by operations whose Filter ran before the Pool object was created and whose Bind allocates under the pool prefix without size check or pool lock; tables %v",
+			cnt, s.LastRan.Name, b, w.OpBound["#unbounded-adds"], allocOnly(w.MemDump()))}
 	}
 	if cnt > b {
 		return &Finding{Clause: "pool-grew-beyond-size", Detail: fmt.Sprintf("pool pl holds %d IPs after a step of %s, the largest size in force during that operation was %d; tables %v",
